@@ -21,7 +21,7 @@ inductive NodeKey where
   | scope | iterate
   deriving DecidableEq, Repr, Inhabited
 
-structure Unit where
+structure ExecUnit where
   id : Nat
   key : NodeKey
   reads : List String
@@ -40,6 +40,20 @@ def targetNamesL (es : List Expr) : List String :=
   match es with
   | [] => []
   | e :: rest => targetNames e ++ targetNamesL rest
+end
+
+mutual
+/-- Names unbound by a `del` target. -/
+def delNames (e : Expr) : List String :=
+  match e with
+  | .name _ s c => if c == .del then [s] else []
+  | .seq _ _ es _ => delNamesL es
+  | .starred _ v _ => delNames v
+  | _ => []
+def delNamesL (es : List Expr) : List String :=
+  match es with
+  | [] => []
+  | e :: rest => delNames e ++ delNamesL rest
 end
 
 def compTargets (gens : List Expr) : List String :=
@@ -89,10 +103,10 @@ def readsEs (hid : List String) (es : List Expr) : List String :=
 end
 
 mutual
-/-- Variables rebound or deleted when `e` is evaluated / assigned to / deleted (`hid` as above). -/
+/-- Variables rebound when `e` is evaluated / assigned to (`hid` as above). -/
 def writesE (hid : List String) (e : Expr) : List String :=
   match e with
-  | .name _ s c => if c != .load && !hid.contains s then [s] else []
+  | .name _ s c => if c == .store && !hid.contains s then [s] else []
   | .const .. | .noneMarker => []
   | .attr _ v _ _ => writesE hid v
   | .subscript _ v s _ => writesE hid v ++ writesE hid s
@@ -110,8 +124,9 @@ def writesE (hid : List String) (e : Expr) : List String :=
   | .seq _ _ es _ => writesEs hid es
   | .starred _ v _ => writesE hid v
   | .namedexpr _ t v =>
-      -- a named expression always rebinds the variable of the enclosing function, also inside a comprehension
-      targetNames t ++ writesE hid v
+      -- a named expression rebinds the variable of the enclosing function, also inside a comprehension
+      -- (its target is never an iteration variable of an enclosing comprehension: that is a SyntaxError)
+      writesE hid t ++ writesE hid v
   | .comp _ _ elts gens =>
       match gens with
       | .comprehension _ t it ifs _ :: rest =>
@@ -143,7 +158,7 @@ def defExprs (args : Expr) (decos returns : List Expr) : List Expr :=
 mutual
 /-- The units made by the lambdas inside an expression: the body of each lambda.
     `hid`: iteration variables of the comprehensions enclosing the lambda (they are the comprehension's). -/
-def unitsE (hid : List String) (e : Expr) : List Unit :=
+def unitsE (hid : List String) (e : Expr) : List ExecUnit :=
   match e with
   | .name .. | .const .. | .noneMarker => []
   | .attr _ v _ _ => unitsE hid v
@@ -172,7 +187,7 @@ def unitsE (hid : List String) (e : Expr) : List Unit :=
   | .arg _ _ an => unitsEs hid an
   | .withitem _ c v => unitsE hid c ++ unitsEs hid v
   | .other _ _ _ kids => unitsEs hid kids
-def unitsEs (hid : List String) (es : List Expr) : List Unit :=
+def unitsEs (hid : List String) (es : List Expr) : List ExecUnit :=
   match es with
   | [] => []
   | e :: rest => unitsE hid e ++ unitsEs hid rest
@@ -181,43 +196,73 @@ end
 def aliasName (a : String × String) : String :=
   if a.2 == "" then (a.1.splitOn ".").headD a.1 else a.2
 
-def simpleUnit (id : Nat) (es : List Expr) (extraReads extraWrites : List String := []) : Unit :=
+def simpleUnit (id : Nat) (es : List Expr) (extraReads extraWrites : List String := []) : ExecUnit :=
   { id := id, key := .scope, reads := extraReads ++ readsEs [] es, writes := extraWrites ++ writesEs [] es }
 
 mutual
-/-- All units of a statement, with what each reads and rebinds/deletes. -/
-def unitsS (s : Stmt) : List Unit :=
+/-- The statement-level units of a statement (everything except lambda bodies), with what each reads and
+    rebinds/deletes. -/
+def stmtUnits (s : Stmt) : List ExecUnit :=
   match s with
-  | .functionDef i name args body decos returns _ =>
-      simpleUnit i (defExprs args decos returns) [] [name] :: (unitsE [] args ++ unitsEs [] decos ++ unitsEs [] returns ++ unitsSs body)
-  | .classDef i name bases kws body decos =>
-      simpleUnit i (decos ++ bases ++ kws) [] [name] :: (unitsEs [] decos ++ unitsEs [] bases ++ unitsEs [] kws ++ unitsSs body)
-  | .ret i v => simpleUnit i v :: unitsEs [] v
-  | .delete i ts => simpleUnit i ts :: unitsEs [] ts
-  | .assign i ts v => simpleUnit i (ts ++ [v]) :: (unitsEs [] ts ++ unitsE [] v)
-  | .augAssign i t _ v => simpleUnit i [t, v] (targetNames t) :: (unitsE [] t ++ unitsE [] v)
-  | .annAssign i t an v _ => simpleUnit i ([t, an] ++ v) :: (unitsE [] t ++ unitsE [] an ++ unitsEs [] v)
+  | .functionDef i name args body decos returns _ => simpleUnit i (defExprs args decos returns) [] [name] :: stmtUnitsL body
+  | .classDef i name bases kws body decos => simpleUnit i (decos ++ bases ++ kws) [] [name] :: stmtUnitsL body
+  | .ret i v => [simpleUnit i v]
+  | .delete i ts => [simpleUnit i ts [] (delNamesL ts)]
+  | .assign i ts v => [simpleUnit i (ts ++ [v])]
+  | .augAssign i t _ v => [simpleUnit i [t, v] (targetNames t)]
+  | .annAssign i t an v _ => [simpleUnit i ([t, an] ++ v)]
   | .for_ i t it body orelse _ _ =>
       simpleUnit it.id [it] :: { id := i, key := .iterate, reads := readsE [] t, writes := writesE [] t }
-        :: (unitsE [] t ++ unitsE [] it ++ unitsSs body ++ unitsSs orelse)
-  | .while_ _ t body orelse => simpleUnit t.id [t] :: (unitsE [] t ++ unitsSs body ++ unitsSs orelse)
-  | .if_ _ t body orelse => simpleUnit t.id [t] :: (unitsE [] t ++ unitsSs body ++ unitsSs orelse)
-  | .with_ _ items body _ => (items.map fun it => simpleUnit it.id [it]) ++ unitsEs [] items ++ unitsSs body
-  | .raise i e c => simpleUnit i (e ++ c) :: (unitsEs [] e ++ unitsEs [] c)
-  | .try_ _ b h o f => unitsSs b ++ unitsSs h ++ unitsSs o ++ unitsSs f
-  | .handler _ ty _ b => unitsEs [] ty ++ unitsSs b
-  | .assert_ i t m => simpleUnit i (t :: m) :: (unitsE [] t ++ unitsEs [] m)
+        :: (stmtUnitsL body ++ stmtUnitsL orelse)
+  | .while_ _ t body orelse => simpleUnit t.id [t] :: (stmtUnitsL body ++ stmtUnitsL orelse)
+  | .if_ _ t body orelse => simpleUnit t.id [t] :: (stmtUnitsL body ++ stmtUnitsL orelse)
+  | .with_ _ items body _ => (items.map fun it => simpleUnit it.id [it]) ++ stmtUnitsL body
+  | .raise i e c => [simpleUnit i (e ++ c)]
+  | .try_ _ b h o f => stmtUnitsL b ++ stmtUnitsL h ++ stmtUnitsL o ++ stmtUnitsL f
+  | .handler _ _ _ b => stmtUnitsL b
+  | .assert_ i t m => [simpleUnit i (t :: m)]
   | .import_ i names => [{ id := i, key := .scope, reads := [], writes := names.map aliasName }]
   | .importFrom i _ names _ => [{ id := i, key := .scope, reads := [], writes := names.map aliasName }]
   | .global i _ => [{ id := i, key := .scope, reads := [], writes := [] }]
   | .nonlocal i _ => [{ id := i, key := .scope, reads := [], writes := [] }]
-  | .expr i v => simpleUnit i [v] :: unitsE [] v
+  | .expr i v => [simpleUnit i [v]]
   | .pass _ | .break_ _ | .continue_ _ => []
-  | .other _ _ es bs => unitsEs [] es ++ unitsSs bs
-def unitsSs (ss : List Stmt) : List Unit :=
+  | .other _ _ _ bs => stmtUnitsL bs
+def stmtUnitsL (ss : List Stmt) : List ExecUnit :=
   match ss with
   | [] => []
-  | s :: rest => unitsS s ++ unitsSs rest
+  | s :: rest => stmtUnits s ++ stmtUnitsL rest
 end
+
+mutual
+/-- The lambda-body units below a statement. -/
+def lambdaUnits (s : Stmt) : List ExecUnit :=
+  match s with
+  | .functionDef _ _ args body decos returns _ => unitsE [] args ++ unitsEs [] decos ++ unitsEs [] returns ++ lambdaUnitsL body
+  | .classDef _ _ bases kws body decos => unitsEs [] decos ++ unitsEs [] bases ++ unitsEs [] kws ++ lambdaUnitsL body
+  | .ret _ v => unitsEs [] v
+  | .delete _ ts => unitsEs [] ts
+  | .assign _ ts v => unitsEs [] ts ++ unitsE [] v
+  | .augAssign _ t _ v => unitsE [] t ++ unitsE [] v
+  | .annAssign _ t an v _ => unitsE [] t ++ unitsE [] an ++ unitsEs [] v
+  | .for_ _ t it body orelse _ _ => unitsE [] t ++ unitsE [] it ++ lambdaUnitsL body ++ lambdaUnitsL orelse
+  | .while_ _ t body orelse => unitsE [] t ++ lambdaUnitsL body ++ lambdaUnitsL orelse
+  | .if_ _ t body orelse => unitsE [] t ++ lambdaUnitsL body ++ lambdaUnitsL orelse
+  | .with_ _ items body _ => unitsEs [] items ++ lambdaUnitsL body
+  | .raise _ e c => unitsEs [] e ++ unitsEs [] c
+  | .try_ _ b h o f => lambdaUnitsL b ++ lambdaUnitsL h ++ lambdaUnitsL o ++ lambdaUnitsL f
+  | .handler _ ty _ b => unitsEs [] ty ++ lambdaUnitsL b
+  | .assert_ _ t m => unitsE [] t ++ unitsEs [] m
+  | .expr _ v => unitsE [] v
+  | .other _ _ es bs => unitsEs [] es ++ lambdaUnitsL bs
+  | _ => []
+def lambdaUnitsL (ss : List Stmt) : List ExecUnit :=
+  match ss with
+  | [] => []
+  | s :: rest => lambdaUnits s ++ lambdaUnitsL rest
+end
+
+/-- All units of a statement. -/
+def unitsS (s : Stmt) : List ExecUnit := stmtUnits s ++ lambdaUnits s
 
 end Malt.Spec
